@@ -417,6 +417,12 @@ impl RaftStorage<ClientRequest, ClientResponse> for FileStore {
                 snapshot_id,
             })
             .await??;
+        //the snapshot manager enters the snapshot into the catalogue with a fire-and-forget message; the log files it
+        //replaces are removed below: wait until the catalogue write has been done (the index actor's mailbox is
+        //first-in first-out and blocked while it writes), otherwise a crash in between leaves neither log nor snapshot
+        self.index_manager
+            .send(RaftIndexRequest::LoadMember)
+            .await??;
         self.apply_manager
             .send(StateApplyRequest::ApplySnapshot { snapshot })
             .await??;
